@@ -1,8 +1,8 @@
 package main
 
-// Final-round ops: strict oj.Marshal of values with LONG MarshalJSON output, Unmarshal / Recompose into json.Unmarshaler
-// targets that yield while they read, and deeply nested private data through alt.Decompose / Alter and the writers'
-// fallbacks with a Simplify() that yields.
+// Round-6 ops: strict oj.Marshal of values with LONG MarshalJSON output, Unmarshal / Recompose into json.Unmarshaler
+// targets that yield while they read.  (The deep-data ops of that round were replaced by the deep[d] family of
+// r7hookops.go: depth classes 10 / 100 / 500 / 1000 through every recursive entry point.)
 
 import (
 	"encoding/json"
@@ -14,7 +14,6 @@ import (
 	"github.com/ohler55/ojg"
 	"github.com/ohler55/ojg/alt"
 	"github.com/ohler55/ojg/oj"
-	"github.com/ohler55/ojg/pretty"
 	"github.com/ohler55/ojg/sen"
 )
 
@@ -68,38 +67,10 @@ func unmDoc(arg int) []byte {
 		arg, arg%60, arg, w, w, arg, arg, w)) // single-member objects: the composer re-encodes maps unsorted
 }
 
-// yieldS: Simplify yields, so that overlapping Decompose / Alter calls really overlap.
-type yieldS struct {
-	V    int
-	Next any
-}
-
-func (y *yieldS) Simplify() any {
-	runtime.Gosched()
-	return map[string]any{"y": []any{y.V, y.Next}} // one member: unsorted writers stay deterministic
-}
-
-// deepData: about 600 levels of arrays and single-member maps, with a yielding Simplifier every 60 levels.
-func deepData(arg int) any {
-	var v any = []any{arg, "leaf"}
-	for i := 0; i < 590+arg%7; i++ {
-		switch {
-		case i%60 == 59:
-			v = &yieldS{V: arg*1000 + i, Next: v}
-		case i%2 == 0:
-			v = []any{v}
-		default:
-			v = map[string]any{"k": v}
-		}
-	}
-	return v
-}
-
 func digestOf(v any) string { return short(canonStd(v)) }
 
 func r6Ops() []Op {
 	srt := &ojg.Options{Sort: true}
-	col := &ojg.Options{Sort: true, Color: true}
 	return []Op{
 		// ---- strict marshal of json.Marshaler values (oj.Marshal validates what MarshalJSON returns)
 		{"oj.Marshal(marshaler long)", "marshal", func(a int) (string, []byte) {
@@ -142,16 +113,6 @@ func r6Ops() []Op {
 			err := oj.Unmarshal([]byte(fmt.Sprintf(`{"only":[%d,"%s"]}`, a, strings.Repeat(string(rune('a'+a%26)), 60+a))), &r)
 			return string(r) + errStr(err), nil
 		}},
-		// ---- deep private data
-		{"alt.Decompose(deep)", "pure", func(a int) (string, []byte) { return digestOf(alt.Decompose(deepData(a))), nil }},
-		{"alt.Alter(deep)", "pure", func(a int) (string, []byte) { return digestOf(alt.Alter(deepData(a))), nil }},
-		{"alt.Dup(deep)", "pure", func(a int) (string, []byte) { return digestOf(alt.Dup(deepData(a))), nil }},
-		{"oj.JSON(deep)", "json", func(a int) (string, []byte) { return oj.JSON(deepData(a)), nil }},
-		{"oj.JSON(deep,color)", "pure", func(a int) (string, []byte) { return oj.JSON(deepData(a), col), nil }},
-		{"sen.String(deep,color)", "pure", func(a int) (string, []byte) { return sen.String(deepData(a), col), nil }},
-		{"sen.String(deep)", "json", func(a int) (string, []byte) { return sen.String(deepData(a)), nil }},
-		{"pretty.JSON(deep)", "pure", func(a int) (string, []byte) { return pretty.JSON(deepData(a), srt), nil }},
-		{"alt.Generify(deep)", "pure", func(a int) (string, []byte) { return digestOf(alt.Decompose(alt.Generify(deepData(a)))), nil }},
 	}
 }
 
